@@ -283,11 +283,32 @@ func VerifC10AutoWalk() {
 		resolver: newOffsetResolver(ch.DataType, ddbInstr()), cfg: Config{Channel: ch}}
 	db.idx = &index.Domain{DB: ddb, Channel: ch}
 	ctx := context.Background()
-	b := telem.TimeRange{Start: 0, End: 100}
+	b := telem.TimeRange{Start: telem.TimeStamp(verifInt64("bounds.start")), End: 100}
+	verifAssume(b.Start >= 0 && b.Start <= 56)
 	chunk := int64(verifLen("chunk", 1, verifParam("chunk", 4)))
 	it, err := db.OpenIterator(IteratorConfig{Bounds: b, AutoChunkSize: chunk})
 	verifAssume(err == nil)
 	forward := verifBool("forward")
+	verifAssume(forward || b.Start == 0)
+	inBounds := all[:0:0]
+	for _, t := range all {
+		if t >= b.Start {
+			inBounds = append(inBounds, t)
+		}
+	}
+	all = inBounds
+	// Known finding C10-autospan-inexact-start: bounds that start inside a domain but not on a sample.
+	inexactStart := false
+	for _, d := range specs {
+		if b.Start > d.Start && b.Start < d.End {
+			inexactStart = true
+		}
+	}
+	for _, t := range all {
+		if t == b.Start {
+			inexactStart = false
+		}
+	}
 	var visited []telem.TimeStamp
 	if forward {
 		verifAssume(it.SeekFirst(ctx))
@@ -314,7 +335,11 @@ func VerifC10AutoWalk() {
 		// and the step after the last chunk (either direction) reports a discontinuity error and keeps the
 		// previous frame. Everything about forward steps that return data is checked without exception.
 		known := !forward || !valid
-		assertK := func(label string, cond bool) { verifAssertKnown(label, cond, "C10-autospan-edges", known) }
+		finding := "C10-autospan-edges"
+		if inexactStart {
+			known, finding = true, "C10-autospan-inexact-start"
+		}
+		assertK := func(label string, cond bool) { verifAssertKnown(label, cond, finding, known) }
 		assertK("auto-no-error", it.Error() == nil)
 		assertK("auto-at-most-one-chunk", int64(len(got)) <= chunk)
 		assertK("auto-exact-samples-of-view", verifHExactly(got, all, v))
@@ -341,6 +366,10 @@ func VerifC10AutoWalk() {
 			same = false
 		}
 	}
-	verifAssertKnown("auto-traversal-visits-every-sample-once", same, "C10-autospan-edges", !forward)
+	if inexactStart {
+		verifAssertKnown("auto-traversal-visits-every-sample-once", same, "C10-autospan-inexact-start", true)
+	} else {
+		verifAssertKnown("auto-traversal-visits-every-sample-once", same, "C10-autospan-edges", !forward)
+	}
 	verifReach("end")
 }
